@@ -2,8 +2,10 @@ package checks
 
 import (
 	"fmt"
+	"qverif/interp"
 	"sort"
 	"strings"
+	"time"
 
 	"qverif/core"
 	"qverif/engine"
@@ -77,6 +79,10 @@ func init() {
 		c.R.NotDecide("numeric conditioning; Max/MinAlong at ties; that the forward kernels are the mathematical functions (C03/C05)")
 		c.R.NotDecide("ranks above the tier bound (quick: unary<=3, binary<=2(+1 for contractions); thorough: unary<=5, binary<=3)")
 		statelessPremise(c, false)
+		premiseRuleOps(c)
+		// "every subset of tracked operands": an untracked operand that an earlier back-propagation passed by must still
+		// be usable as a constant — the walk spends tracked ancestors of the root only (C08.bp on the DAG templates)
+		premiseWalk(c)
 		addOpsAssumptions(c)
 	})
 	register("C07", "gradient of a broadcast operand is the sum over its copies", func(c *Ctx) {
@@ -96,7 +102,10 @@ func init() {
 		c.R.Min("op.closure_evaluations", 200)
 		statelessPremise(c, false)
 		// the reducers / reshapes the Broadcast rule is composed of meet their element specification
+		// "all upstream gradients": an infinite upstream gradient summed over the copies stays that infinity
+		c.nonFinite = true
 		premiseOps(c, core.PkgGrad, "Broadcast")
+		c.nonFinite = false
 		premiseWalk(c)
 		addOpsAssumptions(c)
 	})
@@ -188,7 +197,9 @@ func init() {
 		RunOps(c, OpFilter{Keep: func(rule, construct string) bool {
 			return rule == "S1c.edges" || rule == "S1a.gctx" || rule == "C08.state" || rule == "S1b.operands"
 		}})
-		rules.S3Ownership(c.P, c.A, c.R)
+		// S3 plus the other statelessness rules: "all interleavings … of any length" is decided one call / one template
+		// at a time, so nothing but the tensors' own contexts may carry state from one call to the next
+		statelessPremise(c, false)
 		c.R.Count("flags.instances", len(calls))
 		c.R.Count("walk.programs", st.Programs)
 		c.R.Count("walk.state_checks", st.StateChecks)
@@ -281,14 +292,16 @@ func statelessPremise(c *Ctx, components bool) {
 // premiseWalk re-runs the C01 walk obligations on the DAG templates: gradients of components only arrive if the
 // walk delivers them (a walk that prunes, skips, double-counts or fails leaves tensors without their gradient).
 func premiseWalk(c *Ctx) {
-	c.R.Rule("premise (delivery): the C01 walk obligations on the DAG templates (diamonds, ladders, fan-outs, shared leaves, identity reshapes / broadcasts) are re-run: every tracked tensor of the graph receives the total derivative, every rule is applied at most once per edge")
+	c.R.Rule("premise (delivery): the C01 walk obligations on the DAG templates (diamonds, ladders, fan-outs, shared leaves, identity reshapes / broadcasts) are re-run: every tracked tensor of the graph receives the total derivative, every rule is applied at most once per edge; ResetGradContext leaves a fresh leaf in every prior state (C08.reset); exactly the tracked ancestors of the root end up spent (C08.bp)")
 	e := engine.NewOpEngine(c.P, c.A)
 	st := &engine.WalkStats{}
 	for _, pr := range engine.TemplatePrograms() {
 		e.RunProgram(pr, st)
 	}
+	// … and a tensor that was reset starts over as a fresh leaf (no gradient or edge carried into the next pass)
+	e.RunResetChecks()
 	fileOps(c, e, OpFilter{Keep: func(rule, construct string) bool {
-		return strings.HasPrefix(rule, "C01.") || rule == "interp"
+		return strings.HasPrefix(rule, "C01.") || rule == "interp" || rule == "C08.reset" || rule == "C08.bp"
 	}})
 	c.R.Count("walk.programs", st.Programs)
 }
@@ -315,6 +328,27 @@ func premiseLocalRules(c *Ctx, pkg string) {
 	RunOps(c, OpFilter{Methods: diff, Keep: func(rule, construct string) bool {
 		return isGradRule(rule) && !isBroadcastConstruct(construct)
 	}})
+	premiseRuleOps(c)
+	// the rules of these methods are themselves compositions of Tensor methods (MatMul's rule transposes, SumAlong's
+	// un-squeezes and expands, …) evaluated through their specification: element-level agreement of those
+	premiseOps(c, core.PkgGrad, diff...)
+}
+
+// premiseRuleOps: the backward rules are compositions of Tensor methods that the closure mode evaluates through
+// their specification; that is only sound if the implementation of each such method accepts what the specification
+// accepts, returns the specified shape and does not panic (a validator of Patch that rejects the partial index Slice's
+// rule hands on makes back-propagation fail although every rule "is" its VJP).
+func premiseRuleOps(c *Ctx) {
+	names := engine.TensorMethodsInvokedBy(c.P, c.A, core.PkgGrad)
+	if len(names) == 0 {
+		return
+	}
+	c.R.Rule("premise (rule operations): the Tensor methods the backward rules invoke (" + strings.Join(names, ", ") + ") accept every argument tuple their specification accepts, with the specified shape and without panicking (A4.pre rejects-valid, A4.shape, S6.panic on the shape-mode instances)")
+	RunOps(c, OpFilter{Methods: names, Keep: func(rule, construct string) bool {
+		return rule == "A4.pre" || rule == "A4.shape" || rule == "S6.panic"
+	}, Only: func(f engine.Finding) bool {
+		return f.Rule != "A4.pre" || f.What == "rejects-valid"
+	}})
 }
 
 // unitTolerance adds the S10.tolerance rule (absolute equality tolerance below 2^-52) to a property.
@@ -335,6 +369,46 @@ func premiseOps(c *Ctx, pkg string, only ...string) {
 	}
 	c.R.Rule("premise D.elements: the Tensor methods invoked by " + pkg[strings.LastIndex(pkg, "/")+1:] + " (" + strings.Join(names, ", ") + ") are re-checked in labelled-element mode (incl. sizes straddling every block/chunk constant of the implementation)")
 	RunData(c, inSet(names...), dataKeep)
+	// … and with SYMBOLIC sizes: they accept every argument tuple their specification accepts (any batch size, not only
+	// the small concrete ones), with the specified shape and without panicking
+	var ops []string
+	for _, n := range names {
+		if c.A != nil && c.P.Func(core.PkgCPU, "(*CPUTensor)."+n) != nil {
+			ops = append(ops, n)
+		}
+	}
+	if len(ops) > 0 {
+		c.R.Rule("premise A4 (symbolic sizes): the same methods accept what their specification accepts for all sizes (A4.pre rejects-valid, A4.shape, S6.panic on the shape-mode instances)")
+		RunOps(c, OpFilter{Methods: ops, Keep: func(rule, construct string) bool {
+			return rule == "A4.pre" || rule == "A4.shape" || rule == "S6.panic"
+		}, Only: func(f engine.Finding) bool {
+			return f.Rule != "A4.pre" || f.What == "rejects-valid"
+		}})
+	}
+}
+
+// premiseNilOnError: components reject a missing tensor by comparing the interface with nil; that only works if
+// every tensor operation that fails hands back a TRUE nil result with its error (not an interface holding a nil
+// pointer, not a half-built tensor) - re-checked here on the shape-mode instances of every operation.
+func premiseNilOnError(c *Ctx) {
+	c.R.Rule("premise (nil on error): on every path on which a tensor operation returns an error its Tensor result is the untyped nil (A4.pre error-with-result / typed-nil-result) — a typed nil passes the components' `t == nil` checks and panics at the first method call")
+	RunOps(c, OpFilter{Keep: func(rule, construct string) bool { return rule == "A4.pre" }, Only: func(f engine.Finding) bool {
+		return f.Rule == "A4.pre" && (f.What == "error-with-result" || f.What == "typed-nil-result")
+	}})
+}
+
+// phaseBudget limits the interpretation that follows to half of what is left of the check's time budget; the
+// returned function lifts the limit again.
+func phaseBudget(c *Ctx) func() {
+	global := interp.SoftDeadline
+	if global.IsZero() {
+		return func() {}
+	}
+	left := time.Until(global)
+	if left > 0 {
+		interp.SoftDeadline = time.Now().Add(left / 2)
+	}
+	return func() { interp.SoftDeadline = global }
 }
 
 func componentCheck(run func(e *engine.OpEngine, c *Ctx), minPaths int, premisePkgs ...string) func(c *Ctx) {
@@ -351,6 +425,7 @@ func componentCheck(run func(e *engine.OpEngine, c *Ctx), minPaths int, premiseP
 		}
 		if len(premisePkgs) > 0 {
 			statelessPremise(c, true)
+			premiseNilOnError(c)
 		}
 		c.R.Count("component.abstract_paths", e.Paths)
 		c.R.Min("component.abstract_paths", minPaths)
@@ -395,6 +470,9 @@ func init() {
 		c.R.Rule("S12: Weights() returns pointers to the layer's own Weight and Bias fields (replacements reach the next Forward), both trainable")
 		c.R.Rule("A4.pre / A1.shape: default initialisation gives tracked parameters of shape [Outputs]; invalid configs and inputs are rejected with an error")
 		e.RunFCChecks()
+		// "arbitrary W, B and inputs": a row sum whose terms are all the same infinity is that infinity (a sum that
+		// overflowed stays overflowed) — the reducers FC is composed of are also re-checked on all-infinite operands
+		c.nonFinite = true
 		statelessPremise(c, true)
 		premiseLocalRules(c, core.PkgLayers)
 		premiseWalk(c)
@@ -408,9 +486,15 @@ func init() {
 func RunData(c *Ctx, want func(string) bool, keep func(rule, construct string) bool) *engine.OpEngine {
 	e := engine.NewOpEngine(c.P, c.A)
 	e.SetDataMode(true)
+	e.NonFinite = c.nonFinite
+	e.ProbeResults = c.probeResults
 	b := engine.QuickDataBounds()
 	if c.Tier == "thorough" {
 		b = engine.ThoroughDataBounds()
+	}
+	if c.thresholdOnly {
+		// only the shapes derived from the implementation's own size constants (none on a tree without such constants)
+		b = engine.DataBounds{MaxRank: 0, Sizes: nil, MaxElts: 1}
 	}
 	calls := e.DataInstances(want, b)
 	for i, call := range calls {
@@ -420,6 +504,9 @@ func RunData(c *Ctx, want func(string) bool, keep func(rule, construct string) b
 		}
 	}
 	fileOps(c, e, OpFilter{Keep: keep})
+	if e.ProbeRuns > 0 {
+		c.R.Count("data.result_probes", e.ProbeRuns)
+	}
 	c.R.Count("data.instances", len(calls))
 	c.R.Count("data.element_comparisons", e.ElemChecks)
 	for fn := range e.Funcs {
@@ -453,7 +540,22 @@ func valueOps(c *Ctx, id string, methods []string, extra func(c *Ctx)) {
 	c.R.Rule(dataRule)
 	set := inSet(methods...)
 	RunOps(c, OpFilter{Methods: methods, Keep: func(rule, construct string) bool { return isShapeRule(rule) }})
-	RunData(c, set, dataKeep)
+	c.R.Rule("result probes: every result tensor of a labelled instance is handed, as the object the implementation built, to Scale(c), Sum() and Add(itself); all must see the specified elements (private bookkeeping carried by results — fill markers, memoised reductions — cannot disagree with the data)")
+	c.probeResults = true
+	// constant constructors take part as probe carriers only (their own obligations belong to C06)
+	carriers := map[string]bool{}
+	for _, n := range []string{"Full", "Zeros", "Ones"} {
+		if !set(n) {
+			carriers[n] = true
+		}
+	}
+	RunData(c, func(n string) bool { return set(n) || n == "Scale" || n == "Sum" || n == "Add" || carriers[n] }, func(rule, construct string) bool {
+		if carriers[construct[strings.LastIndex(construct, ".")+1:]] {
+			return false
+		}
+		return dataKeep(rule, construct)
+	})
+	c.probeResults = false
 	if extra != nil {
 		extra(c)
 	}
@@ -489,6 +591,13 @@ func init() {
 		RunData(c, inSet("At", "TensorOf", "Full", "Zeros", "Ones", "Eye", "Concat", "Slice", "Patch", "NElems", "Shape", "Equals", "Sum", "Max", "Min", "Avg", "Mean", "Var", "Std"), func(rule, construct string) bool {
 			return rule == "S6.panic" || rule == "S6.hang" || rule == "A4.pre"
 		})
+		// the remaining operations on the shapes that straddle the implementation's own size constants (fast paths,
+		// chunked / parallel kernels): no panic there either
+		c.thresholdOnly = true
+		RunData(c, func(string) bool { return true }, func(rule, construct string) bool {
+			return rule == "S6.panic" || rule == "S6.hang"
+		})
+		c.thresholdOnly = false
 		e := engine.NewOpEngine(c.P, c.A)
 		e.RunTensorEntryChecks(3)
 		e.RunAccessorTotality()
@@ -511,6 +620,11 @@ func init() {
 			c.R.Func(fn)
 		}
 		c.R.NotDecide("termination beyond the interpreter's step budget; typed-nil *CPUTensor inside a non-nil interface; integer overflow of element counts")
+		// every call above starts from a fresh abstract state: what an earlier call left behind in package variables,
+		// tensors or components (a lock still held, a cache, a counter) must not exist
+		statelessPremise(c, true)
+		// "or hanging": a lock that a call leaves held blocks the next call
+		rules.S16LockPairing(c.P, c.A, c.R)
 		addOpsAssumptions(c)
 	})
 	register("C10", "tensors are immutable values decoupled from caller-owned slices", func(c *Ctx) {
@@ -531,6 +645,7 @@ func init() {
 		rules.S3Ownership(c.P, c.A, c.R)
 		rules.S13TensorRetention(c.P, c.A, c.R)
 		rules.S15GoroutineDiscipline(c.P, c.A, c.R)
+		rules.S16LockPairing(c.P, c.A, c.R)
 		rules.S2Walk(c.P, c.A, c.R)
 		c.R.Rule("C08.bp on the DAG templates (incl. untracked operands, dead branches, untracked roots): the interpreted walk writes nothing on untracked or unrelated tensors - the part of the effect argument that concerns BackPropagate over graphs sharing untracked tensors")
 		{
@@ -597,6 +712,9 @@ func init() {
 	register("C11", "a training loop follows gradient descent", componentCheck(func(e *engine.OpEngine, c *Ctx) {
 		c.R.Rule("C11.loop/C11.shape/C11.no-leak: FC→{Sigmoid,Relu}→CE→BackPropagate→SGD.Update→ResetGradContext(true) interpreted for two steps with symbolic widths, batch size symbolic and 1: every update succeeds, weights keep shape [Outputs], and the step-2 update expression equals the step-1 update expression with the weights renamed (nothing - gradients, edges, spent flags, cached tensors - leaks across steps); with the reset omitted the next update must report the missing gradient")
 		c.R.Rule("value of the trajectory w ← w - lr·∂L/∂w: compositional over C01 (walk), C02 (local rules), C07 (expansion), C17 (update); the C07 obligations of the expansions FC uses are re-run here and carry known finding D2")
+		// the interpreted loop gets at most half of the time budget: if it runs into it on some construct, the premises
+		// below are still decided and filed
+		restore := phaseBudget(c)
 		e.RunTrainingLoopChecks()
 		c.R.Rule("premises re-run here: C13.gradient of CE/MSE/BCE and C15.gradient of the activations (the gradient that SGD applies is their composition), statelessness of operations and components")
 		e.RunLossGradientChecks()
@@ -606,9 +724,16 @@ func init() {
 		e.RunActivationChecks(2)
 		e.RunFCChecks()
 		e.RunSGDChecks(1)
+		restore()
 		statelessPremise(c, true)
 		unitTolerance(c)
 		premiseWalk(c)
+		premiseLocalRules(c, core.PkgLayers)
+		premiseLocalRules(c, core.PkgActs)
+		premiseLocalRules(c, core.PkgLosses)
+		for _, pk := range []string{core.PkgLayers, core.PkgActs, core.PkgLosses, core.PkgOptimizers} {
+			premiseOps(c, pk)
+		}
 		RunOps(c, OpFilter{Methods: []string{"Broadcast"}, Keep: func(rule, construct string) bool { return isGradRule(rule) && isBroadcastConstruct(construct) }})
 	}, 8))
 }
